@@ -7,6 +7,8 @@ import z3
 from .engine import (Unsupported, Arr, Row, RowVec, Vec, Ref, Opq, PyRange, PyEnum, PyZip, PNONE, St,
                      Closure, Named, Exc, _is_z3, _const_int, dotted_name)
 
+from .engine import V as E_V  # noqa: E402
+
 MUTATING_METHODS = {"append", "pop", "insert", "sort", "setdefault", "update", "extend", "remove", "clear",
                     "add", "discard"}
 
@@ -319,6 +321,15 @@ def for_loop(eng, s, st, fr, k):
         if isinstance(it, Ref) and it.kind in ("dict_items", "dict_keys", "dict_values"):
             from . import foreach
             return foreach.dict_loop(eng, s, it, st1, fr, k)
+        if isinstance(it, Opq):
+            # iteration over an opaque iterable: a ghost sequence of unknown length
+            from . import generators
+            base = eng.new_base("opq_iter")
+            f_len = z3.Function("len", E_V, z3.IntSort())
+            n = f_len(it.t)
+            cell = {"seq": z3.Array(base + ".seq", z3.IntSort(), E_V), "n": n, "pos": z3.IntVal(0), "#may_raise": False}
+            st1 = St(st1.env, {**st1.heap, base: cell}, st1.pc + [n >= 0], st1.ghost)
+            return generators.iter_loop(eng, s, Ref(base, "iter"), st1, fr, k)
         if isinstance(it, Ref) and it.kind == "iter":
             from . import generators
             return generators.iter_loop(eng, s, it, st1, fr, k)
